@@ -62,6 +62,20 @@ def make_full(spec, registry):
     return cls(**kw)
 
 
+_UNSET = object()
+
+
+def same(a, b):
+    """structural equality that tolerates unset attributes (init=False without default)"""
+    if dataclasses.is_dataclass(a) and dataclasses.is_dataclass(b) and type(a) is type(b):
+        return all(same(getattr(a, f.name, _UNSET), getattr(b, f.name, _UNSET)) for f in dataclasses.fields(a))
+    if isinstance(a, list) and isinstance(b, list):
+        return len(a) == len(b) and all(same(x, y) for x, y in zip(a, b))
+    if a is _UNSET or b is _UNSET:
+        return a is b
+    return type(a) is type(b) and a == b
+
+
 def enc_leaf(v):
     if isinstance(v, bool) or v is None:
         return 'n' if v is None else 'b%d' % v
@@ -103,7 +117,7 @@ def walk(inst, spec, doc, products, registry):
                 if f['fac'] == 'list':
                     good = isinstance(val, list) and val == []
                 else:
-                    good = dataclasses.is_dataclass(val) and val == make_full(f['cls'], registry)
+                    good = dataclasses.is_dataclass(val) and same(val, make_full(f['cls'], registry))
                 s = ('F%d' % f['fid']) if good else 'X(fac:%s)' % enc_leaf(val)
                 products.append(val)
             else:
